@@ -857,6 +857,14 @@ def sum_(a, axis=None):
             z = ZERO[base.kind if base.kind != 'b' else 'i']
             return wrap(_sum1(lambda t: z3.If(msk.elem(t), base.elem(t) if base.kind != 'b' else z3.If(base.elem(t), 1, 0), z), base.shape_e[0], 'f' if base.kind == 'f' else 'i'))
         return wrap(_sum1(a.elem, a.shape_e[0], a.kind))
+    co = getattr(a, 'concat_of', None)
+    if co is not None and axis is not None and co[1] == axis and a.ndim == 2:
+        # ASSUMED: a sum along the concatenation axis is the sum of the sums of the pieces
+        parts = [sum_(p_, axis=axis) for p_ in co[0]]
+        acc = parts[0]
+        for p_ in parts[1:]:
+            acc = acc + p_
+        return acc
     if axis is not None and concrete(a.shape_e[axis]) is not None and concrete(a.shape_e[axis]) <= 16 and a.ndim >= 2:
         # reduction over a concrete, small axis: explicit sum
         cn = concrete(a.shape_e[axis])
